@@ -42,6 +42,16 @@ Theorem C17_untouched_declarations_keep_their_comments : forall steps cs c lo hi
 Proof. exact outside_changed_region_survives. Qed.
 Print Assumptions C17_untouched_declarations_keep_their_comments.
 
+(* the same for several rewritten declarations: R is the set of positions of the rewritten
+   declarations and the gaps around them; a comment with a position outside R survives *)
+Theorem C17_untouched_general : forall steps cs c (R : Z -> Prop),
+  In c cs ->
+  (forall s p, In s steps -> covers (fst s) p -> R p) ->
+  (exists p, c_pos c <= p < c_end c /\ ~ R p) ->
+  In c (run_steps steps cs).
+Proof. exact outside_changed_set_survives. Qed.
+Print Assumptions C17_untouched_general.
+
 Example C17_ex :
   let cs := [ {| c_id := 1; c_pos := 0; c_end := 10 |};       (* header *)
               {| c_id := 2; c_pos := 40; c_end := 50 |};      (* inside the rewritten call *)
